@@ -129,7 +129,7 @@ type genCfg struct {
 	wIter, wEmpty    int
 	wChild, wClose   int
 	big              bool
-	maxval           bool // values within a few hundred bytes of the largest size Insert accepts
+	maxval           bool   // values within a few hundred bytes of the largest size Insert accepts
 	maxvalAt         string // if set: only this path gets such values (keeps runs with many operations affordable)
 }
 
